@@ -10,7 +10,7 @@ from .common import Corr, hex2f
 from .c01 import make_target
 
 ID = "C02"
-LEAN_MODULES = ["TempestVerif.Props.C02", "TempestVerif.Props.C03"]   # C03: the kernel the pipeline takes from the tape
+LEAN_MODULES = ["TempestVerif.Props.C02", "TempestVerif.Props.C03", "TempestVerif.Props.C06"]   # C03: the kernel the pipeline takes from the tape
 RULE = ("(a) evidence trace replay: real runs driven to termination with all randomness observed; the Lean pipeline model replays the "
         "tape and must reproduce every per-iteration logZ and the FINAL evidence (the beta = 1 mixture estimate over the whole history) "
         "within 1e-9; the real epilogue value (compute_logw_and_logz(1.0)) is what evidence() reports. (b) seed sensitivity predicted "
